@@ -23,7 +23,8 @@ CONSTANTS Files,        \* config-file states: records shaped like Defaults (fie
 
 Defaults == [fmt |-> "default", chain |-> "none", out |-> "default", errlog |-> "default", dsmax |-> "default",
              logmax |-> "default", fac |-> "default", lvl |-> "default", ident |-> "default", dup |-> FALSE, state |-> "ok",
-             sinkst |-> "ok"]
+             sinkst |-> "ok", synerr |-> FALSE]
+(* synerr: the file additionally contains a line that is a syntax error; its valid lines still apply *)
 (* sinkst is not part of the file: it is the state of the configured destination ("ok" | "absent" | "full"),
    carried in the same record so that one constant enumerates the environment of a call *)
 (* state: "ok" = a readable file with a [snoopy] section; "absent" / "unreadable" / "garbage": nothing usable *)
